@@ -406,7 +406,7 @@ func TestVerifExtract(t *testing.T) {
 		out.WriteByte('\n')
 	}
 	// judge one real extraction against the demands of the specification
-	judge := func(idx int, name string, fn func(string, string) error, file string, c *v20Case, raw json.RawMessage) {
+	judge := func(idx int, name string, fn func(string, string) error, file string, c *v20Case, raw json.RawMessage, want map[string]string) {
 		if err := box.resetDest(); err != nil {
 			t.Fatal(err)
 		}
@@ -441,7 +441,10 @@ func TestVerifExtract(t *testing.T) {
 		}
 		// when the call succeeded and the outcome is determined, it is exactly the archived tree
 		if c.Det && xerr == nil && panicked == "" {
-			if diff := v20DiffInside(inside, v20Expected(idx, c)); diff != "" {
+			if want == nil {
+				want = v20Expected(idx, c)
+			}
+			if diff := v20DiffInside(inside, want); diff != "" {
 				report(idx, name, "tree-mismatch", diff, c, raw)
 			}
 			stats[name+":tree-compared"]++
@@ -481,7 +484,7 @@ func TestVerifExtract(t *testing.T) {
 		for i := range xzJobs {
 			j := &xzJobs[i]
 			file := filepath.Join(xzDir, strconv.Itoa(j.idx)+".tar.xz")
-			judge(j.idx, "tarxz", extractTarXz, file, &j.c, j.raw)
+			judge(j.idx, "tarxz", extractTarXz, file, &j.c, j.raw, nil)
 			os.Remove(file)
 		}
 		xzJobs = xzJobs[:0]
@@ -523,7 +526,16 @@ func TestVerifExtract(t *testing.T) {
 				if err := os.WriteFile(file, v20Gzip(tarRaw), 0o644); err != nil {
 					t.Fatal(err)
 				}
-				judge(idx, "targz", extractTarGz, file, &c, raw)
+				judge(idx, "targz", extractTarGz, file, &c, raw, nil)
+				if c.D == "ok" && c.Det {
+					// the same well-formed entries in other well-formed encodings: the same tree is demanded
+					for _, v := range v20TarVariants(idx, &c, v20Expected(idx, &c)) {
+						if err := os.WriteFile(file, v.data, 0o644); err != nil {
+							t.Fatal(err)
+						}
+						judge(idx, "targz+"+v.name, extractTarGz, file, &c, raw, v.want)
+					}
+				}
 			}
 		}
 		if formats["zip"] {
@@ -538,7 +550,15 @@ func TestVerifExtract(t *testing.T) {
 				if err := os.WriteFile(file, zb, 0o644); err != nil {
 					t.Fatal(err)
 				}
-				judge(idx, "zip", extractZip, file, &c, raw)
+				judge(idx, "zip", extractZip, file, &c, raw, nil)
+				if c.D == "ok" && c.Det {
+					for _, v := range v20ZipVariants(idx, &c) {
+						if err := os.WriteFile(file, v.data, 0o644); err != nil {
+							t.Fatal(err)
+						}
+						judge(idx, "zip+"+v.name, extractZip, file, &c, raw, v.want)
+					}
+				}
 			}
 		}
 		if formats["tarxz"] && (idx%xzMod == xzSel || idx == 0) {
